@@ -1,3 +1,5 @@
+import json
+
 from typing import Any, List, Optional
 
 from tartiflette.language.ast.base import Node, ValueNode
@@ -319,11 +321,13 @@ class StringValueNode(ValueNode):
 
     def __str__(self) -> str:
         """
-        Returns a human-readable representation of the value.
+        Returns a human-readable representation of the value: a valid
+        GraphQL string literal (quotes, backslashes and control characters
+        are escaped).
         :return: a human-readable representation of the value
         :rtype: str
         """
-        return f'"{self.value}"'
+        return json.dumps(self.value, ensure_ascii=False)
 
 
 class ListValueNode(ValueNode):
